@@ -30,13 +30,15 @@ def _alarm(signum, frame):
 
 @contextlib.contextmanager
 def time_limit(seconds):
-    old = signal.signal(signal.SIGALRM, _alarm)
-    signal.setitimer(signal.ITIMER_REAL, seconds)
+    """Limit on the CPU time of this process (ITIMER_VIRTUAL), not on wall-clock time: a descheduled or snapshotted
+    machine must not look like a non-terminating compile or VM run."""
+    old = signal.signal(signal.SIGVTALRM, _alarm)
+    signal.setitimer(signal.ITIMER_VIRTUAL, seconds)
     try:
         yield
     finally:
-        signal.setitimer(signal.ITIMER_REAL, 0)
-        signal.signal(signal.SIGALRM, old)
+        signal.setitimer(signal.ITIMER_VIRTUAL, 0)
+        signal.signal(signal.SIGVTALRM, old)
 
 
 @contextlib.contextmanager
